@@ -93,4 +93,7 @@ MUTANTS = [
 """, """            if width_fmt.endswith(')'):
                 width_fmt = width_fmt.split('(')[0]
 """)]},
+    {"id": "c13-reader-strips-blanks-around-separators", "expect": "fire", "edits": [(P, "from typing import Iterator\n", "import re\nfrom typing import Iterator\n"), (P, "        # 1.1. find field name\n        chunks = [s.strip() for s in fmt.split(\":\")]", "        fmt = re.sub(r\"\\s*(<-|[-/!:()])\\s*\", r\"\\1\", fmt)\n        # 1.1. find field name\n        chunks = [s.strip() for s in fmt.split(\":\")]")]},
+    {"id": "c13-reader-lowercases", "expect": "fire", "edits": [(P, "        # 1.1. find field name\n        chunks = [s.strip() for s in fmt.split(\":\")]", "        fmt = fmt.lower()\n        # 1.1. find field name\n        chunks = [s.strip() for s in fmt.split(\":\")]")]},
+    {"id": "c13-n-reader-strips-ends", "expect": "silent", "edits": [(P, "        # 1.1. find field name\n        chunks = [s.strip() for s in fmt.split(\":\")]", "        fmt = fmt.strip()\n        # 1.1. find field name\n        chunks = [s.strip() for s in fmt.split(\":\")]")]},
 ]
